@@ -341,6 +341,8 @@ class FullMetalBarrageComponent(
 
         if is_keydown_ended(event):
             state.penalty_lasting.set_time_left(self.homing_penalty_duration)
+            # keydown.time_left is negative here: the time this step ran past the keydown end
+            state.penalty_lasting.elapse(max(0, -state.keydown.time_left))
 
         return state, event
 
